@@ -39,4 +39,4 @@ def tasks(tier, seed=0):
     # the string folding code on symbolic strings (C03): a foreign exception on a feasible path is the failed clause `<op>/raises`
     strs = [task("vf.contracts.strfold", "ob_fold", f"strings.{op}/folded-equals-solved", ["C03", "C04"], replay="vf.contracts.strfold:replay", op=op, tier=tier,
                  maxlen=2 if tier == "quick" else 3) for op in strfold.OPS]
-    return _C01._simp_tasks(tier) + _C01._cbv_tasks(tier) + _C01._compose_tasks(tier, seed + 17) + strs + _crash_tasks(tier)
+    return _C01._table_task() + _C01._simp_tasks(tier) + _C01._cbv_tasks(tier) + _C01._compose_tasks(tier, seed + 17) + strs + _crash_tasks(tier)
